@@ -12,7 +12,7 @@ namespace Martian.LexerLR
 def genTables : Tables :=
   ⟨Gen.mmExca, Gen.mmAct, Gen.mmPact, Gen.mmPgo, Gen.mmR1, Gen.mmR2, Gen.mmChk, Gen.mmDef,
    Gen.mmTok1, Gen.mmTok2, Gen.mmTok3, Gen.mmLast, Gen.mmPrivate, Gen.mmFlag, Gen.mmErrCode, Gen.mmEofCode,
-   Gen.mmNToknames, Gen.mmNErrorMessages⟩
+   Gen.mmNToknames, Gen.mmNErrorMessages, Gen.mmFailProds⟩
 
 def maxNat : List Nat → Nat
   | [] => 0
